@@ -20,6 +20,7 @@ Rules (strict mode 0):
 Mode 1: a device with a read-only count (0601 0002h) that takes entries at any count, and the null entry 0
 (unused slot).
 Mode 2: accepts every write that fits an existing register.
+Fault injection (histories): begin_op(fail_download_at=k, fail_upload_reg=(i, s)); reset(regs).
 """
 from canopen.sdo import SdoAbortedError
 
@@ -31,6 +32,7 @@ AB_VALUE = 0x06090030
 AB_STATE = 0x08000022
 AB_NOT_MAPPABLE = 0x06040041
 AB_PDO_LENGTH = 0x06040042
+AB_DEVICE = 0x08000020
 
 
 def is_com(i):
@@ -56,6 +58,22 @@ class StrictPdoDevice:
         self.objs = {(i, s): b for i, s, b in objs}
         self.mode = mode
         self.log = []
+        # fault injection for histories: the k-th download of the current operation is aborted (0800 0022h,
+        # whatever the rules say), every upload of one register is aborted (0800 0020h)
+        self.fail_download_at = 0
+        self.fail_upload_reg = None
+        self.op_downloads = 0
+
+    def begin_op(self, fail_download_at=0, fail_upload_reg=None):
+        """start a new operation: returns the position in the log where it starts"""
+        self.fail_download_at = fail_download_at
+        self.fail_upload_reg = fail_upload_reg
+        self.op_downloads = 0
+        return len(self.log)
+
+    def reset(self, regs):
+        """the device comes back (power cycle / configured by someone else) with these registers"""
+        self.regs = dict(regs)
 
     # ---- rules
     def valid(self, com):
@@ -106,6 +124,10 @@ class StrictPdoDevice:
     # ---- SdoClient interface used by SdoVariable
     def download(self, index, subindex, data, force_segment=False):
         data = bytes(data)
+        self.op_downloads += 1
+        if self.op_downloads == self.fail_download_at:
+            self.log.append((index, subindex, int.from_bytes(data, "little"), AB_STATE))
+            raise SdoAbortedError(AB_STATE)
         verdict = self.check(index, subindex, data)
         self.log.append((index, subindex, int.from_bytes(data, "little"), verdict))
         if verdict is not None:
@@ -113,6 +135,8 @@ class StrictPdoDevice:
         self.regs[(index, subindex)] = int.from_bytes(data, "little")
 
     def upload(self, index, subindex):
+        if self.fail_upload_reg == (index, subindex):
+            raise SdoAbortedError(AB_DEVICE)
         v = self.regs.get((index, subindex))
         if v is None:
             raise SdoAbortedError(AB_NO_SUB)
